@@ -1118,16 +1118,19 @@ package otr3
 //@   invariant nonglobal(result) && nonglobal(current) && len(result) == int(mpiCount) && (forall k in 0..i :: result[k] != nil)
 //@ sweep toSmpMessage1, toSmpMessage1Q, toSmpMessage2, toSmpMessage3, toSmpMessage4, (tlv).smpMessage
 
+//@ define akeOKnokey(c) = c != nil && c.ake != nil && c.version != nil && keysNonNil(c)
 //@ func (*Conversation).sigMessage
-//@   requires akeOK(c) && c.ake.ourPublicValue != nil && c.ake.theirPublicValue != nil && len(c.ake.sigKey.c) == 16
+//@   requires akeOKnokey(c) && c.ake.ourPublicValue != nil && c.ake.theirPublicValue != nil && len(c.ake.sigKey.c) == 16
 //@   modifies anything
 //@   preserves [C01.sigmsg.frame] c.msgState, c.theirKey, c.ake, c.version, c.sentRevealSig, c.keys.ourKeyID, c.keys.theirKeyID, c.ourCurrentKey, c.Policies, c.ake.theirPublicValue, c.ake.ourPublicValue, c.ake.secretExponent
 //@   ensures result1 == nil ==> nonglobal(result0)
+//@   ensures [C13.sign.haskey.sig] result1 == nil ==> c.ourCurrentKey != nil
 //@ func (*Conversation).revealSigMessage
-//@   requires akeOK(c) && c.ake.ourPublicValue != nil && c.ake.theirPublicValue != nil && c.ake.secretExponent !== nil
+//@   requires akeOKnokey(c) && c.ake.ourPublicValue != nil && c.ake.theirPublicValue != nil && c.ake.secretExponent !== nil
 //@   modifies anything
 //@   preserves [C01.revealsigmsg.frame] c.msgState, c.theirKey, c.ake, c.version, c.sentRevealSig, c.keys.ourKeyID, c.keys.theirKeyID, c.ourCurrentKey, c.Policies, c.ake.theirPublicValue, c.ake.ourPublicValue, c.ake.secretExponent
 //@   ensures result1 == nil ==> nonglobal(result0)
+//@   ensures [C13.sign.haskey.revealsig] result1 == nil ==> c.ourCurrentKey != nil
 
 //@ define smpSecretTerm(a, b, ssid, secret) = nat(hashval(2, bs_cat(bs_cat(bs_cat(bs_cat(bs_cat(bs_empty(), byte1(1)), a), b), ssid), secret)))
 
